@@ -6,7 +6,6 @@ import (
 	"fmt"
 	"io/ioutil"
 	"net/http"
-	"net/http/httptest"
 	"path/filepath"
 	"regexp"
 	"sort"
@@ -340,14 +339,15 @@ func CheckC16(env *core.Env, rep *core.Report) *core.Result {
 			e.samples.Add(map[string]interface{}{"features": c.dev(), "yaml": clipS(docs["yaml"], 500), "toml": clipS(docs["toml"], 500)})
 		}
 	})
+	httpSkipped := false
 	// the same three files fetched over HTTP (-c http://127.0.0.1:<port>/<k>/cfg.<format>): a server that
 	// labels everything text/plain, application/octet-stream or nothing at all leaves the format to the
 	// URL's extension; the three formats still load to the same thing
-	{
+	func() {
 		var mu sync.Mutex
 		served := map[string][]byte{}
 		ctype := map[string]string{}
-		srv := httptest.NewServer(http.HandlerFunc(func(w http.ResponseWriter, r *http.Request) {
+		srv := loopbackServer(http.HandlerFunc(func(w http.ResponseWriter, r *http.Request) {
 			mu.Lock()
 			b, ok := served[r.URL.Path]
 			ct := ctype[r.URL.Path]
@@ -363,6 +363,10 @@ func CheckC16(env *core.Env, rep *core.Report) *core.Result {
 			}
 			_, _ = w.Write(b)
 		}))
+		if srv == nil {
+			httpSkipped = true
+			return // no loopback listener in this sandbox: the URL scenarios are left out
+		}
 		defer srv.Close()
 		cts := []string{"text/plain; charset=utf-8", "application/octet-stream", "", "text/plain"}
 		k := 0
@@ -404,7 +408,7 @@ func CheckC16(env *core.Env, rep *core.Report) *core.Result {
 				}
 			}
 		}
-	}
+	}()
 	// YAML's own notation for sharing: anchors, aliases, a merge key whose value is overridden, two
 	// merged anchors that share a key. Written out in full as JSON it is the same configuration.
 	{
@@ -479,7 +483,7 @@ func CheckC16(env *core.Env, rep *core.Report) *core.Result {
 	}
 	return e.result("model_checking", int(runs), len(sel),
 		"abstract configurations from Formats.tla (16 features: command scalar/list, before/after absent/scalar/list, timeout string/int, allow_failure, env and variables with string or numeric/boolean values, variations, condition, context plain/with executable struct, depends_on scalar/list, import same-format/cross-format, watcher scalar/list fields, stage env, dir, exportas; default + all single + all pairs; quick: all singles and 40% of pairs), each serialised to YAML, JSON and TOML with the libraries taskctl itself uses and given to list, show main, show dep, graph p, run main, run p, run dep main; exit status, executed commands and (for non-run commands) normalised stdout must agree pairwise, and agree with the model's Built; eight of them are also fetched over HTTP from a loopback server that labels them text/plain, application/octet-stream or not at all",
-		map[string]interface{}{"vectors_in_model": len(cases), "vectors_run": len(sel)},
+		map[string]interface{}{"vectors_in_model": len(cases), "vectors_run": len(sel), "url_scenarios_left_out_no_loopback_listener": httpSkipped},
 		[]string{"the serialisers are trusted harness code; string keys and values are always quoted by yaml.v2's marshaller (YAML 1.1 implicit typing is avoided)",
 			"that three third-party parsers map bytes to the same tree is observed, not modelled"})
 }
